@@ -443,11 +443,13 @@ class History(RuleBasedStateMachine):
             raise Violation(key, f"query {tail!r} over a base stream object used {earlier} time(s) before in this process, on {backend}: {d}",
                             {"history": hist, "probe": {"backend": backend, "text": text, "executor": executor, "xmd": False, "shared": [base_text, tail]}})
 
-    @rule(probe=st.sampled_from([p_ for p_ in PROBES if "MetaData" not in p_[1]]), executor=st.sampled_from(["new", "same"]))
+    @rule(probe=st.sampled_from([p_ for p_ in PROBES if "vf_docker" not in p_[1]] + [("atlas", q(A_PT2, [JET_INT])), ("atlas", q(A_PT, [SCRIPT])), ("atlas", q(A_PT, [BLOCK])),
+                                 ("atlas", q(A_ENUM, [ENUM])), ("cms_aod", q(C_PT, [MU_INT])), ("atlas", q(A_PT2, [JET_INT, BLOCK, SCRIPT]))]),
+          executor=st.sampled_from(["new", "same"]))
     def write_again(self, probe, executor):
-        """one transformed query written twice in a row (a retry, a second output directory); the SECOND package is compared with the pristine one.
-        Only queries without metadata: what a query declares lives in the executor / the global tables until the first write and is gone for the
-        second one - apply and write are a pair (not claimed, see DESIGN 6.2)."""
+        """one transformed query written twice in a row (a retry, a second output directory); the SECOND package is compared with the pristine one -
+        also for queries whose metadata declares things (method types, enums, code blocks, job scripts): they belong to the query, not to the
+        executor's state between an apply and the first write"""
         backend, text = probe
         got = self.child.call({"backend": backend, "text": text, "executor": executor, "write_twice": True})
         if got.get("exc") == "HARNESS":
